@@ -376,6 +376,7 @@ def fault_extras(scs):
 
 def c02(prop, tier, seed, work):
     scs = [
+        dict(name="oversize", static_programs=lambda seed: oversize_programs(seed), obs=[]),
         dict(name="push", profile="push", contents=["m1", "m2", "x1", "a1"], algs=["sha256"], depth=(14, 24), num=(40, 400),
              stores=STORES3, obs=["sess"], mc_contents=["m1", "a1"], mc_depth=(5, 6)),
         dict(name="push2", profile="push", contents=["m3", "x3", "m4", "m5", "x2"], algs=["sha256", "sha512"], depth=(18, 30), num=(25, 300),
@@ -477,8 +478,28 @@ def c01_sessconc(work, prop, tier, seed):
 CHECKS["C01"] = c01
 
 
+def oversize_programs(seed):
+    """Directed: a manifest whose JSON is below the manifest limit and whose trailing white space crosses it (catalogue entry mg),
+    pushed with and without Content-Length, by tag and by digest: refused, nothing stored in a shortened form."""
+    def blob(b):
+        return {"op": "PushBlob", "repo": "r1", "dig": "sha256:" + b, "chunk": {"c": b, "p": "all"}, "which": "chunked", "alg": ""}
+    progs, k = [], 0
+    for lk in (False, True):
+        for ref in ({"k": "tag", "v": "t1"}, {"k": "dig", "v": "sha256:mg"}):
+            for ct in ("", "oci.image"):
+                ops = [blob("b1"), blob("b2"),
+                       {"op": "ManPut", "repo": "r1", "ref": ref, "ctype": ct, "ctvar": "", "body": "mg", "lenKnown": lk, "dparam": ""},
+                       {"op": "ManPut", "repo": "r1", "ref": {"k": "tag", "v": "t2"}, "ctype": "oci.image", "ctvar": "", "body": "m1", "lenKnown": lk, "dparam": ""},
+                       {"op": "Restart"}]
+                progs.append({"id": "oversize-%d" % k, "cfg": dict(DEFAULT_CFG), "contents": ["m1", "mg"], "algs": ["sha256"], "ntags": 2, "repos": ["proj/app"], "seed": k,
+                              "tagstyle": 0, "pre": "", "sentinel": False, "ops": ops, "stores": ["mem", "dir"]})
+                k += 1
+    return progs
+
+
 def c04(prop, tier, seed, work):
     scs = [
+        dict(name="oversize", static_programs=oversize_programs, obs=[]),
         dict(name="manput", profile="manput", contents=["m1", "m2", "m3", "m4", "x1", "x3", "a1", "mg", "mi"], algs=["sha256", "sha512"], depth=(18, 30), num=(40, 400),
              stores=STORES3, obs=["refs"], mc_contents=["m1", "x4"], mc_depth=(3, 4)),
         # references that existed and are gone again when the manifest / index that names them is pushed
